@@ -24,6 +24,7 @@ import asyncio as aio
 from enum import Enum
 from ... import encoding as enc
 from ... import appv2 as app
+from ... import types
 from .tlv import StateVec, StateVecWrapper, StateVecEntry
 
 
@@ -191,7 +192,12 @@ class SvsInst:
                             necessary = True
                             break
                 if necessary:
-                    self.express_sync_interest()
+                    try:
+                        self.express_sync_interest()
+                    except types.NetworkError:
+                        # The face cannot send right now. The timer must survive that: the vector goes out with
+                        # the next expiry (nothing heard in between makes it unnecessary without covering it)
+                        logging.getLogger(__name__).warning('Sync Interest not sent: the face is down')
                 self.timer_rst_event.clear()
                 self.next_sync_timing = time.time() + self.sample_sync_timer()
 
